@@ -30,7 +30,7 @@ func ruleBackoffLaw(c *Ctx, r *Report) {
 		final := func(disabled bool, exceeds *bool) (map[string]bool, bool) {
 			out := map[string]bool{}
 			sawCmp := false
-			w := &Walk{Fn: fn, Follow: followSamePkg(fn), Init: &ivState{cur: "I", vals: map[ssa.Value]string{}}}
+			w := &Walk{Fn: fn, Follow: followSamePkg(fn), Init: &ivState{cur: "I", vals: map[ssa.Value]string{}, exceeds: exceeds, sawCmp: &sawCmp}}
 			da := disableAtom
 			da.val = vBool(disabled)
 			w.Assume = func(v ssa.Value) (Val, bool) {
@@ -765,10 +765,14 @@ func ruleTrackedFragments(c *Ctx, r *Report) {
 type ivState struct {
 	cur  string
 	vals map[ssa.Value]string
+	// exceeds, when set, says whether the doubled interval is assumed to exceed the cap: it
+	// decides min(x, 60s) the way it decides a comparison with 60 s; sawCmp records the use
+	exceeds *bool
+	sawCmp  *bool
 }
 
 func (s *ivState) Fork() PathState {
-	n := &ivState{cur: s.cur, vals: map[ssa.Value]string{}}
+	n := &ivState{cur: s.cur, vals: map[ssa.Value]string{}, exceeds: s.exceeds, sawCmp: s.sawCmp}
 	for k, v := range s.vals {
 		n.vals[k] = v
 	}
@@ -798,6 +802,24 @@ func (s *ivState) sym(v ssa.Value, raw map[*ssa.Phi]ssa.Value, sixty int64) stri
 					return "60s"
 				}
 				return fmt.Sprintf("const %d", k)
+			}
+		case *ssa.Call:
+			// min(x, 60 s): x while it does not exceed the cap, the cap otherwise
+			if calleeName(&t.Call) == "builtin:min" && len(t.Call.Args) == 2 {
+				x, y := s.sym(t.Call.Args[0], raw, sixty), s.sym(t.Call.Args[1], raw, sixty)
+				if x == "60s" {
+					x, y = y, x
+				}
+				if y == "60s" && s.exceeds != nil {
+					if s.sawCmp != nil {
+						*s.sawCmp = true
+					}
+					if *s.exceeds {
+						return "60s"
+					}
+					return x
+				}
+				return "min(" + x + "," + y + ")"
 			}
 		case *ssa.BinOp:
 			x, y := s.sym(t.X, raw, sixty), s.sym(t.Y, raw, sixty)
